@@ -11,7 +11,7 @@ C16.ping   ping bookkeeping by abstract execution of waitPong / gotPong historie
 import ast
 import itertools
 
-from ..absint import Interp, Obj, Node, _Raise, C_NONE, show, flat_effects, enumerate_cells, clone_value, Budget
+from ..absint import Interp, Obj, Node, _Raise, C_NONE, show, flat_effects, enumerate_cells, clone_value, Budget, NeedAtom, DomainGrew
 from ..cfg import CFG
 from ..consts import Evaluator, alts
 from ..layers import LayerRunner, symbolic_node
@@ -242,12 +242,95 @@ def rule_inv(ctx):
               "a connect request in the disconnected state must open a connection and enter CONNECTING (effects %s, state %s)" % (effs, st2), "opens a connection, state CONNECTING")
     st2, co2, effs, raised = T[("onConnected", CONNECTING, False)]
     ctx.check("C16.inv", effs.count(("EMIT", E["EVENT_STATE_CONNECTED"])) == 1, where(NET, "YowNetworkLayer.onConnected", None), "connected callback", "CONNECTED must be announced exactly once per connect", "announced once")
-    # both dispatchers report a requested disconnect through onDisconnected
-    for rel, cn in (("yowsup/layers/network/dispatcher/dispatcher_asyncore.py", "AsyncoreConnectionDispatcher"), ("yowsup/layers/network/dispatcher/dispatcher_socket.py", "SocketConnectionDispatcher")):
-        c = ctx.repo.cls(rel, cn)
-        src = "\n".join(unparse(f) for f in c.methods.values())
-        ok = "connectionCallbacks.onDisconnected()" in src and "connectionCallbacks.onConnected()" in src
-        ctx.check("C16.inv", ok, where(rel, cn, None), "%s reports connected / disconnected" % cn, "dispatcher must report both transitions to the layer", "reports onConnected and onDisconnected")
+    # both dispatchers report every way a connection (or an attempt) ends: decided by executing them against a scripted
+    # socket library - the automaton above takes "one end report per connection" as given
+    rule_dispatchers(ctx)
+
+
+def dispatcher_histories(repo):
+    """the two connection dispatchers, abstractly executed through the histories the socket library can drive them
+    through -> [(dispatcher class, history label, callbacks reported in order)] or None when an execution cannot be followed"""
+    from ..absint import NeedAtom, Budget, DomainGrew, C_NONE
+    out = []
+    rel, cn = "yowsup/layers/network/dispatcher/dispatcher_asyncore.py", "AsyncoreConnectionDispatcher"
+    c = repo.cls(rel, cn)
+
+    def reports(it):
+        return [e[1].split(".")[-1] for e in flat_effects(it.effects) if e[0] == "CALL" and e[1].startswith("callbacks.")]
+    HOST = ("list", [("c", "e1.whatsapp.net"), ("c", 443)])
+    for label, steps in (("connect, connected, closed by the peer", ["connect", "handle_connect", "handle_close"]),
+                         ("connect, the attempt fails (socket error before the connection is up)", ["connect", "handle_error"]),
+                         ("connect, the attempt is closed before the connection is up", ["connect", "handle_close"]),
+                         ("connect, connected, socket error", ["connect", "handle_connect", "handle_error"]),
+                         ("connect, connected, disconnect requested", ["connect", "handle_connect", "disconnect"]),
+                         ("connect, disconnect requested while still connecting", ["connect", "disconnect"])):
+        it = Interp(repo, {}, {})
+        o = Obj(c)
+        o.fields.update({"connectionCallbacks": ("ext", "callbacks", []), "_connected": ("c", False), "_send_lock": ("ext", "RLock()", []), "out_buffer": ("c", b"")})
+        try:
+            for m in steps:
+                if repo.find_method(c, m)[1] is None:
+                    continue        # not overridden: the library's own default (does nothing that reports)
+                try:
+                    it.method_call(("obj", o), m, [HOST] if m == "connect" else [], {}, {"@module": c.module, "@owner": c}, 0, None)
+                except _Raise:
+                    pass
+        except (NeedAtom, Budget, DomainGrew):
+            return None
+        out.append((c, label, reports(it)))
+    rel, cn = "yowsup/layers/network/dispatcher/dispatcher_socket.py", "SocketConnectionDispatcher"
+    c = repo.cls(rel, cn)
+    for label, script in (("connect refused", {"connect": "raise", "recv": []}),
+                          ("connected, closed by the peer at once", {"connect": "ok", "recv": [b""]}),
+                          ("connected, data, closed by the peer", {"connect": "ok", "recv": [b"abc", b""]}),
+                          ("connected, data, socket error while reading", {"connect": "ok", "recv": [b"abc", "raise"]})):
+        pending = list(script["recv"])
+
+        def sock_connect(itp, recv, a, k, env, d, e, script=script):
+            if script["connect"] == "raise":
+                raise _Raise(("ext", "OSError", []), "OSError: connection refused")
+            return C_NONE
+
+        def sock_recv(itp, recv, a, k, env, d, e, pending=pending):
+            if not pending:
+                return ("c", b"")
+            x = pending.pop(0)
+            if x == "raise":
+                raise _Raise(("ext", "OSError", []), "OSError: connection reset")
+            return ("c", x)
+        it = Interp(repo, {}, {}, hooks={"anymethod:connect": sock_connect, "anymethod:recv": sock_recv, "ext:*.connect": sock_connect, "ext:*.recv": sock_recv})
+        it.loop_unroll = 8          # the read loop is driven by the scripted socket until it ends the connection
+        o = Obj(c)
+        o.fields.update({"connectionCallbacks": ("ext", "callbacks", []), "socket": C_NONE})
+        try:
+            try:
+                it.method_call(("obj", o), "connect", [HOST], {}, {"@module": c.module, "@owner": c}, 0, None)
+            except _Raise:
+                pass
+        except (NeedAtom, Budget, DomainGrew):
+            return None
+        out.append((c, label, reports(it)))
+    return out
+
+
+def rule_dispatchers(ctx):
+    hs = dispatcher_histories(ctx.repo)
+    if hs is None:
+        ctx.undecided("C16.inv", where("yowsup/layers/network/dispatcher/dispatcher.py", "YowConnectionDispatcher", None), "dispatcher histories", "a dispatcher could not be executed")
+        return
+    END = ("onDisconnected", "onConnectionError")
+    for c, label, rep in hs:
+        ends = [r for r in rep if r in END]
+        ups = [r for r in rep if r == "onConnected"]
+        want_up = 1 if "connected" in label.split(", ") else 0
+        bad = []
+        if len(ends) != 1:
+            bad.append("the end of the connection is reported %d time(s) (%s): the layer %s" % (len(ends), rep, "stays in its connecting / connected state and refuses every later connect" if not ends else "announces the disconnect twice"))
+        elif rep[-1] not in END:
+            bad.append("something is reported after the end of the connection: %s" % rep)
+        if len(ups) != want_up:
+            bad.append("the connection is reported up %d time(s), expected %d (%s)" % (len(ups), want_up, rep))
+        ctx.check("C16.inv", not bad, where(c.relpath, c.name, None), "%s: %s" % (c.name, label), "; ".join(bad), "reported: %s" % ", ".join(rep))
 
 
 def _event_obj(repo):
@@ -617,14 +700,32 @@ def rule_ping(ctx, tier):
                 bad.append("a thread is started although %s" % ("one is running" if thread != C_NONE else "the interval is not positive"))
         ctx.check("C16.ping", not bad, wa, "keep-alive start, " + label, "; ".join(sorted(set(bad))[:2]), "%d cell(s): started iff interval > 0 and none running, with empty bookkeeping" % len(cells))
     EVD = alts(Evaluator(repo, net.module, net).class_const(net, "EVENT_STATE_DISCONNECTED"))[0]
-    stops = set()
-    for name, f in cls.methods.items():
-        for d in f.decorator_list:
-            if isinstance(d, ast.Call) and unparse(d.func) == "EventCallback":
-                a = alts(Evaluator(repo, cls.module, cls).ev(d.args[0]))
-                if a and any(isinstance(c, ast.Call) and is_self_attr(c.func, "stop_thread") for c in ast.walk(f)):
-                    stops.add(a[0])
-    ctx.check("C16.ping", {EV_DISC, EVD} <= stops, w, "keep-alive stopped on %s" % sorted(stops), "the ping thread must be stopped on the disconnect request and on the disconnected event", "stopped on both events")
+    # decided by delivering each event to a layer whose keep-alive is running, through the layer's own onEvent (the
+    # handler table is the one YowLayer.__init__ builds from what the decorators left on the methods)
+    stops, notes = set(), []
+    for evn in (EV_DISC, EVD):
+        try:
+            runner = LayerRunner(repo)
+            it = Interp(repo, {}, {}, hooks=runner.hooks())
+            it.layer_base = runner.base
+            layer = runner.make_layer(it, cls)
+            thread = ("ext", "pingthread", [])
+            layer[1].fields["_pingThread"] = thread
+            evo = _event_obj(repo)
+            evo.fields["name"] = ("c", evn)
+            it.effects[:] = []
+            it.method_call(layer, "onEvent", [("obj", evo)], {}, {"@module": cls.module, "@owner": cls}, 0, None)
+            stopped = any(e[0] == "CALL" and e[1] == "pingthread.stop" for e in flat_effects(it.effects))
+            if stopped:
+                stops.add(evn)
+            else:
+                notes.append("%s: the running keep-alive thread is not stopped" % evn.split(".")[-1])
+        except _Raise as x:
+            notes.append("%s: raises %s" % (evn.split(".")[-1], (x.text or "")[:50]))
+        except (NeedAtom, Budget, DomainGrew) as x:
+            ctx.undecided("C16.ping", w, "keep-alive stopped on %s" % evn, "the event's delivery could not be executed: %s" % (x,))
+            stops.add(evn)
+    ctx.check("C16.ping", {EV_DISC, EVD} <= stops, w, "keep-alive stopped on %s" % sorted(stops), "the ping thread must be stopped on the disconnect request and on the disconnected event (%s): it goes on pinging into the next connection - or a second one is never started because one is still registered" % "; ".join(notes), "stopped on both events")
     # the keep-alive thread's loop, abstractly executed for three rounds (the stop flag is raised by the environment after the
     # third send): every round records a ping as outstanding and then sends THAT ping, and no two rounds use the same id -
     # waitPong keys its bookkeeping by id, so a repeated id never adds up to "two pings unanswered" and a dead connection
